@@ -83,17 +83,18 @@ impl<L: Language, N: Analysis<L>> EGraph<L, N> {
         let c = self.classes.get_mut(&id).unwrap();
         let grp = &c.group;
 
-        let mut final_cap = cap.clone();
-
-        // d is a newly redundant slot.
-        for d in &c.slots - &cap {
-            // if d is redundant, then also the orbit of d is redundant.
-            final_cap = &final_cap - &grp.orbit(d);
-        }
+        let _ = grp;
 
         c.slots = cap.clone();
         let generators = c.group.generators();
         let _ = c;
+
+        // If d is redundant, then also the orbit of d is redundant: a generator that moves a dropped slot onto a kept one
+        // (or the other way around) cannot be restricted to `cap`. Its equation is asserted again below, as an ordinary union of
+        // the class with its permuted self: the two sides then differ in their slots, which shrinks the class further.
+        let (generators, moving): (Vec<_>, Vec<_>) = generators
+            .into_iter()
+            .partition(|p| p.elem.iter().all(|(x, y)| cap.contains(&x) == cap.contains(&y)));
 
         let restrict_proven = |proven_perm: ProvenPerm| {
             if CHECKS {
@@ -130,6 +131,15 @@ impl<L: Language, N: Analysis<L>> EGraph<L, N> {
         c.group = Group::new(&identity, generators);
 
         self.touched_class(from.id, PendingType::Full);
+
+        for p in moving {
+            let slots = self.slots(id);
+            let l = self.mk_sem_identity_applied_id(id);
+            let m: SlotMap = p.elem.iter().filter(|(x, _)| slots.contains(x)).collect();
+            let r = self.mk_sem_applied_id(id, m);
+            let prf = ghost!(self.disassociate_proven_eq(p.proof.clone()));
+            self.union_internal(&l, &r, prf);
+        }
     }
 
     pub(crate) fn rebuild(&mut self) {
